@@ -325,6 +325,23 @@ def correspond(ctx):
                     ctx.violation('c14:roundtrip:label-collision' if collide else 'c14:roundtrip:value', 'optimal value of the linear part %r before, %r after' % (v1, v2), desc)
                 bump('C:solved:' + s1)
             except (TypeError, ValueError, ArithmeticError, IndexError): bump('C:solve-skipped')
+        # ---------------- D: tofile refuses problems that are not linear programs (piecewise-linear objective or constraints), and writes nothing useful
+        for it in range(12 if ctx.quick() else 200):
+            x = M.variable(rng.randint(2, 3), 'x'); y = M.variable(1, 'y')        # (max over the components of a length-1 variable is affine)
+            pw = rng.choice([lambda: M.max(x), lambda: M.sum(abs(x)), lambda: M.sum(M.max(x, y)), lambda: abs(y), lambda: M.sum(M.max(x, 0.0))])
+            kind = rng.choice(['objective', 'constraint', 'both'])
+            obj = (pw() + y) if kind in ('objective', 'both') else (M.sum(x) + y)
+            cons = [x >= -1, y >= -2, M.sum(x) + y <= 5]
+            if kind in ('constraint', 'both'): cons.append(pw() <= 3)
+            rng.shuffle(cons)
+            pb = M.op(obj, cons); bump('D:non-lp')
+            try:
+                pb.tofile(path)
+                ctx.violation('c14:tofile-accepts-non-lp', 'tofile wrote a file for a problem with a piecewise-linear %s (it must refuse: the MPS format holds linear programs only)' % kind,
+                              {'kind': kind, 'len_x': len(x)})
+            except TypeError: pass
+            except Exception as e:
+                ctx.violation('c14:tofile-raises:' + type(e).__name__, 'tofile on a piecewise-linear problem raised %s (%s) instead of TypeError' % (type(e).__name__, e), {'kind': kind, 'len_x': len(x)})
         # ---------------- B
         for it in range(nB):
             text, rec = gen_file(rng)
